@@ -63,6 +63,19 @@ CHECKS["C16"] = dict(
     note="Typed monitors are covered with C20. Serial execution is by construction in the model and observed in the implementation.",
     design="6/C16", technique="Coq proof (log-shape theorem over all input sequences) + callback-log correspondence in virtual time")
 
+CHECKS["C06"] = dict(
+    text="filterSubscription.run as a step function (FilterSub.v) over the cache model. Proved: its state invariant under every input sequence (cache actor's filter = most recently set filter, cache empty until readiness); filter_update_commutes (a child in step with its parent stays in step under every well-formed parent event); sync_establishes_in_step (every sync from the parent's current content re-establishes it, from any cache not newer than the parent); nested_conjunction (filters nested through clones compose as conjunction); its own events are a well-formed delta (C02). Correspondence: random trees of all six subscribe/clone forms to depth 3 with Refilter racing with readiness and in-flight events under perturbed schedules; at barriers every ready node's cache vs its filter chain applied to the server content and vs the extracted nested_view, event mirrors between barriers.",
+    note="PARTIAL: the convergence theorem for the racing case (stale events replayed after a list that is ahead of them) is designed (DESIGN.md 6/C06) but not mechanised; that case is covered by the harness only.",
+    design="6/C06", technique="Coq proof (step-function invariant, commutation and nesting theorems) + barrier correspondence under racing Refilter in virtual time")
+CHECKS["C07"] = dict(
+    text="refilter_exact (from the f1-view, Refilter(f2) leaves exactly the f2-view), refilter_events_exact / refilter_no_change_no_event (the events are an exact, minimal, well-formed delta), refilter_equal_noop (an equal filter changes and emits nothing) justified by refilter_equal_same_view via C17's soundness, refilter_roundtrip. Correspondence: exhaustive ordered pairs of a 7-member filter family (each rebuilt) + third and repeated Refilters x all parent contents over a small universe, through the public FilterSubscription / FilterController API with barriers; per Refilter the delivered events (multiset) and cache vs the extracted fs_step.",
+    note="Parent listings name each key once.",
+    design="6/C07", technique="Coq proof (sync spec corollaries + feq soundness) + exhaustive differential correspondence through the public API")
+CHECKS["C08"] = dict(
+    text="Controller: ready_implies_synced, nothing published before ready, failed first list never ready. Filtered nodes: ready_implies_synced (the transition that closes Ready leaves cache = filtered parent content; the one transition that does not list the parent happens only while the filter is still the initial All(), which rejects everything), no_event_before_ready, deferred_ready_needs_parent_and_filter, ready_closed_once; all over every input sequence. Correspondence: every order of {parent ready, Refilter(equal), Refilter(new), parent event} up to length 4/6 for the four filtered node kinds at depth 2..4, barrier after each operation: Ready, cache, events vs the extracted fs_step; direct oracles on the implementation.",
+    note="Joins are covered in C09.",
+    design="6/C08", technique="Coq proof (invariants over the ready/pending/deferred state machine, all input sequences) + exhaustive operation-order correspondence")
+
 PENDING = {}
 
 def main():
